@@ -41,6 +41,7 @@ def gen_cancel_during_poll(rng):
         clients.append([["await", rng.choice(["poll-yield", "poll-yield", "poll-enter"])], ["cancel", rng.randrange(1, nsubs)]])
     spec = {"subs": subs, "pf": pf, "clients": clients, "settle": 30.0, "focus": "cancel-during-poll"}
     spec["sim"] = runner.draw_sim_cfg(rng, est=500)
+    runner.prefer_place(spec["sim"], 0.4)
     spec["sim"]["horizon_s"] = 20000
     return spec
 
@@ -69,8 +70,11 @@ def gen(rng, tier):
                 ops.append(["sleep", rng.choice([0.05, 0.1, 0.2, 0.4, 0.7])])
             ops.append(rng.choice([["cancel", rng.randrange(nsubs)], ["cancel", rng.randrange(nsubs)], ["notify"]]))
         clients.append(ops)
-    spec = {"subs": subs, "pf": pf, "clients": clients, "settle": 30.0}
+    spec = {"subs": subs, "pf": pf, "clients": clients, "settle": 30.0,
+            "falsy_exc": rng.random() < 0.15}     # delegates that fail do so with an exception object that is falsy
     spec["sim"] = runner.draw_sim_cfg(rng, est=500, stall_ok=True)
+    if any(op[0] == "await" for ops in clients for op in ops):
+        runner.prefer_place(spec["sim"], 0.3)
     spec["sim"]["horizon_s"] = 20000
     return spec
 
@@ -135,7 +139,7 @@ def run(spec, env):
                 sim.sleep(sub["dur"])
             env.hit("delegate-done")
             if sub["out"] == "exc":
-                raise env.exc(("d", s), "ErrA")
+                raise env.exc(("d", s), "FalsyErr" if spec.get("falsy_exc") else "ErrA")
             return ("v", s, 1)
         fn.tag = s
         return fn
